@@ -17,7 +17,7 @@ func init() {
 		Technique:   "guarded-sink and must-pass-through rules on the SSA CFG of wrappers.sanitizeDesktopFile, rewriteExecLine and rewriteIconLine; constant-table rule on the line allow-list (every alternative anchored at the line start, matched on the raw line)",
 		Explanation: "Structural necessary conditions for 'generated desktop files only contain allowed lines, run the snap's own wrappers and reference icons inside the snap': (R1) sanitizeDesktopFile writes a source line only across isValidDesktopFileLine(rawLine)==true, where the allow-list is regexp.MustCompile(join of constants).Match applied to the raw scanner line and every alternative is anchored with ^ (keys are not matched after leading whitespace); a line with the Exec= / Icon= prefix is written only after rewriteExecLine / rewriteIconLine succeeded, and what is written is the rewritten line; (R2) every [Desktop Entry] header written is followed by the X-SnapInstanceName tag, on every path, with no further condition; (R3) rewriteExecLine returns, without error, only lines of the form Exec= + env + wrapper path of an app of this snap; rewriteIconLine lets a path through only across HasPrefix(icon, \"${SNAP}/\") (with the trailing slash) and filepath.Clean(icon)==icon, and rewrites or refuses snap.-prefixed names.",
 		NotDecided:  "the language of the allow-list regexp as a whole (localised keys, control characters inside values); the desktop-entry parsers of the desktop environments.",
-		Run:         runC27,
+		Run:         func(c *Ctx) { runC27(c); runC27x(c) },
 	})
 }
 
